@@ -257,4 +257,199 @@ theorem cnvPipeline_exact (P : PrimeSet) (g : P.Good) (ng : P.NttGood) (j : Nat)
       (cnvApplyLane_rep P 3 j (laneCtx_of P ng 3 j (by omega) hj1 hj) rs off la lb mA mB a b ha hb hla hlb hsz l h1)
       (hbound l h1)
 
+/-! ### `cnv_pairwise_apply_dft` (`i ≠ j`) -/
+
+theorem pairwisePackLeftK_spec (q a b : Nat) (hq0 : 0 < q) (hq : q < 2 ^ 31) :
+    (pairwisePackLeftK q a b).1 < q ∧ (pairwisePackLeftK q a b).2 = 0 ∧ cz q (pairwisePackLeftK q a b).1 = cz q a + cz q b := by
+  unfold pairwisePackLeftK
+  have ha : a % q < q := Nat.mod_lt _ hq0
+  have hb : b % q < q := Nat.mod_lt _ hq0
+  simp only []
+  rw [wu64_of_lt _ (by omega : a % q + b % q < 2 ^ 64)]
+  have ea : cz q (a % q) = cz q a := cz_eq_of_modEq (Nat.mod_modEq _ _)
+  have eb : cz q (b % q) = cz q b := cz_eq_of_modEq (Nat.mod_modEq _ _)
+  by_cases h : a % q + b % q ≥ q
+  · rw [if_pos h]
+    have hs : subU64 (a % q + b % q) q = a % q + b % q - q := by unfold subU64; omega
+    rw [hs, wu32_of_lt _ (by omega)]
+    refine ⟨by omega, trivial, ?_⟩
+    unfold cz at *
+    rw [Nat.cast_sub h]; push_cast
+    rw [ea, eb, ZMod.natCast_self]; ring
+  · rw [if_neg h, wu32_of_lt _ (by omega)]
+    refine ⟨by omega, trivial, ?_⟩
+    unfold cz at *; push_cast; rw [ea, eb]
+
+/-- the pairwise left pack of two lanes represents the sum of the two limbs -/
+theorem lrep_pairpack (P : PrimeSet) (k j : Nat) (c : LaneCtx P k j) (u v : List Nat) (x y : Poly)
+    (hu : Rep P k j u x) (hv : Rep P k j v y) :
+    LRep P k j (List.zipWith (pairwisePackLeftK (P.qs.getD k 1)) u v) (polyAdd x y) := by
+  have hqg := c.fwd.q_gt
+  have hql := c.fwd.q_lt
+  set q := P.qs.getD k 1 with hq
+  have hω := omegaZ_pow P k j c.fwd c.hj
+  refine ⟨by simp [hu.1, hv.1], by simp [polyAdd, hu.2.1, hv.2.1], ?_, ?_⟩
+  · intro l hl
+    rw [List.mem_iff_getElem] at hl
+    obtain ⟨i, hi, rfl⟩ := hl
+    rw [List.getElem_zipWith]
+    simp only [List.length_zipWith] at hi
+    obtain ⟨h1, h2, _⟩ := pairwisePackLeftK_spec q (u[i]'(by omega)) (v[i]'(by omega)) (by omega) hql
+    exact ⟨by omega, by rw [h2]; norm_num⟩
+  · rw [map_polyAdd, nttM_add _ j _ _ (by simpa using hu.2.1) (by simpa using hv.2.1) hω, ← hu.2.2.2, ← hv.2.2.2]
+    unfold addL
+    apply List.ext_getElem
+    · simp
+    · intro i h1 h2
+      simp only [List.length_map, List.length_zipWith] at h1
+      simp only [List.getElem_map, List.getElem_zipWith]
+      obtain ⟨_, e2, e3⟩ := pairwisePackLeftK_spec q (u[i]'(by omega)) (v[i]'(by omega)) (by omega) hql
+      rw [e2, e3]; simp [cz]
+
+/-- the entry-wise `u32` sum of two q120c lanes is a prepared representation of the sum of the limbs -/
+theorem prep_add (P : PrimeSet) (k j : Nat) (c : LaneCtx P k j) (C D : List (Nat × Nat)) (p p' : Poly)
+    (hC : PrepRep P k j C p) (hD : PrepRep P k j D p')
+    (bC : ∀ e ∈ C, e.1 < P.qs.getD k 1 ∧ e.2 < P.qs.getD k 1) (bD : ∀ e ∈ D, e.1 < P.qs.getD k 1 ∧ e.2 < P.qs.getD k 1) :
+    PrepRep P k j (List.zipWith (fun c d => (pairwisePackRightK c.1 d.1, pairwisePackRightK c.2 d.2)) C D) (polyAdd p p') := by
+  have hqg := c.fwd.q_gt
+  have hql := c.fwd.q_lt
+  set q := P.qs.getD k 1 with hq
+  have hω := omegaZ_pow P k j c.fwd c.hj
+  have hsum : ∀ x y, x < q → y < q → pairwisePackRightK x y = x + y := by
+    intro x y hx hy; unfold pairwisePackRightK; exact wu32_of_lt _ (by omega)
+  refine ⟨by simp [hC.1, hD.1], by simp [polyAdd, hC.2.1, hD.2.1], ?_, ?_⟩
+  · intro e he
+    rw [List.mem_iff_getElem] at he
+    obtain ⟨i, hi, rfl⟩ := he
+    rw [List.getElem_zipWith]
+    simp only [List.length_zipWith] at hi
+    obtain ⟨c1, c2⟩ := bC C[i] (List.getElem_mem (by omega))
+    obtain ⟨d1, d2⟩ := bD D[i] (List.getElem_mem (by omega))
+    obtain ⟨_, _, c3⟩ := hC.2.2.1 C[i] (List.getElem_mem (by omega))
+    obtain ⟨_, _, d3⟩ := hD.2.2.1 D[i] (List.getElem_mem (by omega))
+    rw [hsum _ _ c1 d1, hsum _ _ c2 d2]
+    refine ⟨by omega, by omega, ?_⟩
+    unfold cz at *; push_cast; rw [c3, d3]; ring
+  · rw [map_polyAdd, nttM_add _ j _ _ (by simpa using hC.2.1) (by simpa using hD.2.1) hω, ← hC.2.2.2, ← hD.2.2.2]
+    unfold addL
+    apply List.ext_getElem
+    · simp
+    · intro i h1 h2
+      simp only [List.length_map, List.length_zipWith] at h1
+      simp only [List.getElem_map, List.getElem_zipWith]
+      obtain ⟨c1, _⟩ := bC C[i] (List.getElem_mem (by omega))
+      obtain ⟨d1, _⟩ := bD D[i] (List.getElem_mem (by omega))
+      rw [hsum _ _ c1 d1]; unfold cz; push_cast; rfl
+
+theorem getD_zipWith_nil {α β γ} (f : List α → List β → List γ) (hf : f [] [] = []) (L : List (List α)) (M : List (List β)) (i : Nat)
+    (h : L.length = M.length) : (List.zipWith f L M).getD i [] = f (L.getD i []) (M.getD i []) := by
+  by_cases hi : i < L.length
+  · rw [getD_zipWith_lt _ _ _ i [] [] [] hi (by omega)]
+  · have hm : ¬ i < M.length := by omega
+    have e1 : L.getD i [] = [] := by simp [List.getD, hi]
+    have e2 : M.getD i [] = [] := by simp [List.getD, hm]
+    have e3 : (List.zipWith f L M).getD i [] = [] := by simp [List.getD, hi]
+    rw [e1, e2, e3, hf]
+
+theorem colAdd_getD (n : Nat) (A B : Col) (h : A.length = B.length) (l : Nat) (hl : l < A.length) :
+    limbOr0 n (colAdd n A B) l = polyAdd (limbOr0 n A l) (limbOr0 n B l) := by
+  unfold colAdd limbOr0
+  rw [getD_map_lt _ _ l 0 (zeroP n) (by simp; omega)]
+  simp [List.getD, (by omega : l < max A.length B.length)]
+
+/-- **`cnv_pairwise_apply_dft` (`i ≠ j`), one prime lane**: represents `Hal.cnvApplyCol` of the summed columns -/
+theorem cnvPairwiseLane_rep (P : PrimeSet) (k j : Nat) (c : LaneCtx P k j) (rs off la lb : Nat) (mA mB : Int) (ai aj bi bj : Col)
+    (hai : ColOK j ai) (haj : ColOK j aj) (hbi : ColOK j bi) (hbj : ColOK j bj)
+    (hla : 0 < la) (hlb : 0 < lb) (hsz : la < 10000) (kk : Nat) (hk : kk < rs) :
+    Rep P k j
+      ((cnvPairwiseLaneK (P.qs.getD k 1) (bbcH P) (2 ^ j) rs off
+        (cnvPrepareLaneK (P.qs.getD k 1) (2 ^ j) (realNtt P (2 ^ j) k) la mA ai)
+        (cnvPrepareLaneK (P.qs.getD k 1) (2 ^ j) (realNtt P (2 ^ j) k) la mA aj)
+        (cnvPrepareRightLaneK (P.qs.getD k 1) (2 ^ j) (realNtt P (2 ^ j) k) lb mB bi)
+        (cnvPrepareRightLaneK (P.qs.getD k 1) (2 ^ j) (realNtt P (2 ^ j) k) lb mB bj)).getD kk [])
+      ((cnvApplyCol (2 ^ j) rs off
+        (colAdd (2 ^ j) (cnvPrepareCol (2 ^ j) la mA ai) (cnvPrepareCol (2 ^ j) la mA aj))
+        (colAdd (2 ^ j) (cnvPrepareCol (2 ^ j) lb mB bi) (cnvPrepareCol (2 ^ j) lb mB bj))).getD kk (zeroP (2 ^ j))) := by
+  obtain ⟨hh, hh2⟩ := bbcH_range P
+  set q := P.qs.getD k 1 with hq
+  set FAi := cnvPrepareLaneK q (2 ^ j) (realNtt P (2 ^ j) k) la mA ai with hFAi
+  set FAj := cnvPrepareLaneK q (2 ^ j) (realNtt P (2 ^ j) k) la mA aj with hFAj
+  set FBi := cnvPrepareRightLaneK q (2 ^ j) (realNtt P (2 ^ j) k) lb mB bi with hFBi
+  set FBj := cnvPrepareRightLaneK q (2 ^ j) (realNtt P (2 ^ j) k) lb mB bj with hFBj
+  set Ai := cnvPrepareCol (2 ^ j) la mA ai with hAi
+  set Aj := cnvPrepareCol (2 ^ j) la mA aj with hAj
+  set Bi := cnvPrepareCol (2 ^ j) lb mB bi with hBi
+  set Bj := cnvPrepareCol (2 ^ j) lb mB bj with hBj
+  have l1 : FAi.length = la := cnvPrepareLaneK_length _ _ _ _ _ _
+  have l2 : FAj.length = la := cnvPrepareLaneK_length _ _ _ _ _ _
+  have l3 : FBi.length = lb := by simp [hFBi, cnvPrepareRightLaneK, cnvPrepareLaneK_length]
+  have l4 : FBj.length = lb := by simp [hFBj, cnvPrepareRightLaneK, cnvPrepareLaneK_length]
+  have m1 : Ai.length = la := cnvPrepareCol_length _ _ _ _
+  have m2 : Aj.length = la := cnvPrepareCol_length _ _ _ _
+  have m3 : Bi.length = lb := cnvPrepareCol_length _ _ _ _
+  have m4 : Bj.length = lb := cnvPrepareCol_length _ _ _ _
+  have cA : (colAdd (2 ^ j) Ai Aj).length = la := by simp [colAdd, m1, m2]
+  have cB : (colAdd (2 ^ j) Bi Bj).length = lb := by simp [colAdd, m3, m4]
+  have pL : (pairLeftLanes q FAi FAj).length = la := by simp [pairLeftLanes, l1, l2]
+  have pR : (pairRightLanes FBi FBj).length = lb := by simp [pairRightLanes, l3, l4]
+  have hgen := cnvApply_generic P k j (bbcH P) c hh hh2 (pairLeftLanes q FAi FAj) (pairRightLanes FBi FBj)
+    (colAdd (2 ^ j) Ai Aj) (colAdd (2 ^ j) Bi Bj) (by rw [pL, cA]) (by rw [pR, cB]) (by omega) (by omega) (by omega)
+    (by
+      intro l hl
+      rw [cA] at hl
+      unfold pairLeftLanes
+      rw [getD_zipWith_nil _ (by rfl) FAi FAj l (by rw [l1, l2]), colAdd_getD _ Ai Aj (by rw [m1, m2]) l (by omega)]
+      exact lrep_pairpack P k j c _ _ _ _ (cnvPrepare_rep P k j c la mA ai hai l hl) (cnvPrepare_rep P k j c la mA aj haj l hl))
+    (by
+      intro l hl
+      rw [cB] at hl
+      unfold pairRightLanes
+      rw [getD_zipWith_nil _ (by rfl) FBi FBj l (by rw [l3, l4]), colAdd_getD _ Bi Bj (by rw [m3, m4]) l (by omega)]
+      obtain ⟨r1, b1⟩ := cnvPrepareRight_rep P k j c lb mB bi hbi l hl
+      obtain ⟨r2, b2⟩ := cnvPrepareRight_rep P k j c lb mB bj hbj l hl
+      exact prep_add P k j c _ _ _ _ r1 r2 b1 b2)
+    rs off kk hk
+  have e : (cnvPairwiseLaneK q (bbcH P) (2 ^ j) rs off FAi FAj FBi FBj).getD kk [] =
+      (if kk < min rs ((colAdd (2 ^ j) Ai Aj).length + (colAdd (2 ^ j) Bi Bj).length - 1 + 1 - min off ((colAdd (2 ^ j) Ai Aj).length + (colAdd (2 ^ j) Bi Bj).length - 1))
+        then bbcSlotsK q (bbcH P) (2 ^ j) (cnvRowsPacked (pairLeftLanes q FAi FAj) (pairRightLanes FBi FBj)
+          (kk + min off ((colAdd (2 ^ j) Ai Aj).length + (colAdd (2 ^ j) Bi Bj).length - 1)))
+        else List.replicate (2 ^ j) 0) := by
+    unfold cnvPairwiseLaneK
+    rw [if_neg (by omega)]
+    rw [getD_map_lt _ _ kk 0 [] (by simpa using hk)]
+    have hr : (List.range rs).getD kk 0 = kk := by simp [List.getD, hk]
+    rw [hr, l1, l3, cA, cB]
+  rw [e]
+  exact hgen
+
+/-- **`cnv_pairwise_apply_dft(i ≠ j)` + `idft` = HAL specification** on the summed columns, whenever the result fits `(Q−1)/2` -/
+theorem cnvPairwisePipeline_exact (P : PrimeSet) (g : P.Good) (ng : P.NttGood) (j : Nat) (hj1 : 1 ≤ j) (hj : j ≤ 16)
+    (rs off la lb : Nat) (mA mB : Int) (ai aj bi bj : Col)
+    (hai : ColOK j ai) (haj : ColOK j aj) (hbi : ColOK j bi) (hbj : ColOK j bj)
+    (hla : 0 < la) (hlb : 0 < lb) (hsz : la < 10000)
+    (hbound : ∀ l, l < rs → ∀ i, i < 2 ^ j →
+      -(((bigQ P : Int) - 1) / 2) ≤ ((cnvApplyCol (2 ^ j) rs off
+        (colAdd (2 ^ j) (cnvPrepareCol (2 ^ j) la mA ai) (cnvPrepareCol (2 ^ j) la mA aj))
+        (colAdd (2 ^ j) (cnvPrepareCol (2 ^ j) lb mB bi) (cnvPrepareCol (2 ^ j) lb mB bj))).getD l (zeroP (2 ^ j))).getD i 0 ∧
+      ((cnvApplyCol (2 ^ j) rs off
+        (colAdd (2 ^ j) (cnvPrepareCol (2 ^ j) la mA ai) (cnvPrepareCol (2 ^ j) la mA aj))
+        (colAdd (2 ^ j) (cnvPrepareCol (2 ^ j) lb mB bi) (cnvPrepareCol (2 ^ j) lb mB bj))).getD l (zeroP (2 ^ j))).getD i 0 ≤ ((bigQ P : Int) - 1) / 2) :
+    cnvPairwisePipeline P (2 ^ j) rs off la lb mA mB ai aj bi bj =
+      cnvApplyCol (2 ^ j) rs off
+        (colAdd (2 ^ j) (cnvPrepareCol (2 ^ j) la mA ai) (cnvPrepareCol (2 ^ j) la mA aj))
+        (colAdd (2 ^ j) (cnvPrepareCol (2 ^ j) lb mB bi) (cnvPrepareCol (2 ^ j) lb mB bj)) := by
+  unfold cnvPairwisePipeline
+  simp only []
+  apply List.ext_getElem
+  · simp [cnvApplyCol]
+  · intro l h1 h2
+    simp only [List.length_map, List.length_range] at h1
+    rw [List.getElem_map, List.getElem_range, ← getD_eq_getElem' _ l (zeroP (2 ^ j)) h2]
+    exact idftLimb_eq P g ng j hj1 hj _ _ _ _ _
+      (cnvPairwiseLane_rep P 0 j (laneCtx_of P ng 0 j (by omega) hj1 hj) rs off la lb mA mB ai aj bi bj hai haj hbi hbj hla hlb hsz l h1)
+      (cnvPairwiseLane_rep P 1 j (laneCtx_of P ng 1 j (by omega) hj1 hj) rs off la lb mA mB ai aj bi bj hai haj hbi hbj hla hlb hsz l h1)
+      (cnvPairwiseLane_rep P 2 j (laneCtx_of P ng 2 j (by omega) hj1 hj) rs off la lb mA mB ai aj bi bj hai haj hbi hbj hla hlb hsz l h1)
+      (cnvPairwiseLane_rep P 3 j (laneCtx_of P ng 3 j (by omega) hj1 hj) rs off la lb mA mB ai aj bi bj hai haj hbi hbj hla hlb hsz l h1)
+      (hbound l h1)
+
 end Ntt120
